@@ -288,6 +288,7 @@ def check(prog, rep, tier):
                 probs.append('extended-length bit set (flag 0x%02x) but the length is 1 octet' % fv.value)
             if lv[1] not in ('B', 'H'):
                 probs.append('length field code %s' % lv[1])
+            probs += length_threshold_problems(lv, s)
             rest = BL.lf(0)
             for p in items[3:]:
                 rest = BL.lf_add(rest, BL.item_len(p, s))
@@ -332,6 +333,18 @@ def check(prog, rep, tier):
         else:
             rep.undecided('R08.c', key, file=f.file, line=f.node.lineno, found='no returning path')
 
+    # ---------------------------------------------------------------- R08.c stale accumulators
+    sa_sites = stale_accumulators(prog, funcs)
+    for f, loop, name, line in sa_sites:
+        key = 'stale-accumulator:%s:%s' % (f.qualname, name)
+        rep.bad('R08.c', key, file=f.file, line=line, func=f.qualname,
+                found='%s is grown and emitted inside the loop at line %d but reset outside it: from the second '
+                      'iteration on the emitted bytes repeat the earlier iterations, while the count / length '
+                      'written with them covers one iteration only' % (name, loop.lineno),
+                expected='reset the accumulator inside the loop that emits it', key=key)
+    if not sa_sites:
+        rep.ok('R08.c', 'accumulators-reset', found='%d construct functions scanned' % len(funcs))
+
     # ---------------------------------------------------------------- R08.c TLV walks (literal lengths)
     tlv_walks(prog, rep, results)
 
@@ -348,6 +361,68 @@ def check(prog, rep, tier):
         rep.bad('R08.e', key, file=fn.file, line=node.lineno, func=fn.qualname,
                 found='%s: an earlier message changes how later ones are built (flags/lengths no longer match)' % what,
                 key=key)
+
+
+def length_threshold_problems(lv, s):
+    """The 1-octet / 2-octet choice of an attribute length: where the code bounds the length before
+    choosing, the 1-octet form must be reached for at most 255 and the 2-octet form from 256 on."""
+    val = lv[2]
+    if not isinstance(val, Sym):
+        return []
+    lo, hi, _ne = s.interval(val.name)
+    if lv[1] == 'B' and hi != INF and hi > 255:
+        return ['the 1-octet length form is chosen for lengths up to %s: a value of 256..%s octets cannot be '
+                'encoded (struct.error) although the 2-octet form exists' % (hi, hi)]
+    if lv[1] == 'H' and lo != -INF and lo > 256:
+        return ['the 2-octet length form is only chosen from %s octets on' % lo]
+    return []
+
+
+def stale_accumulators(prog, funcs):
+    """(function, loop, name, line): a bytes / list accumulator that is grown inside a for-loop and emitted
+    inside the same loop, while its reset (x = b'' / '' / []) lies outside that loop: from the second
+    iteration on the emitted value repeats what earlier iterations put in."""
+    out = []
+    for f in funcs:
+        resets = {}
+        for n in ast.walk(f.node):
+            if isinstance(n, ast.Assign) and len(n.targets) == 1 and isinstance(n.targets[0], ast.Name):
+                v = n.value
+                empty = (isinstance(v, ast.Constant) and v.value in (b'', '')) or \
+                    (isinstance(v, (ast.List, ast.Dict)) and not getattr(v, 'elts', getattr(v, 'keys', None)))
+                if empty:
+                    resets.setdefault(n.targets[0].id, []).append(n)
+        if not resets:
+            continue
+        for loop in [n for n in ast.walk(f.node) if isinstance(n, (ast.For, ast.While))]:
+            inside = list(ast.walk(ast.Module(body=loop.body, type_ignores=[])))
+            ids = {id(x) for x in inside}
+            for name, rs in resets.items():
+                if any(id(r) in ids for r in rs):
+                    continue        # reset per iteration (at some depth of this loop)
+                grown = [x for x in inside if (isinstance(x, ast.AugAssign) and isinstance(x.target, ast.Name)
+                                               and x.target.id == name) or
+                         (isinstance(x, ast.Call) and isinstance(x.func, ast.Attribute) and
+                          x.func.attr in ('append', 'extend') and isinstance(x.func.value, ast.Name)
+                          and x.func.value.id == name)]
+                if not grown:
+                    continue
+                emitted = None
+                for x in inside:
+                    tgt = None
+                    if isinstance(x, ast.AugAssign) and isinstance(x.target, ast.Name):
+                        tgt, val = x.target.id, x.value
+                    elif isinstance(x, ast.Assign) and len(x.targets) == 1 and isinstance(x.targets[0], ast.Name):
+                        tgt, val = x.targets[0].id, x.value
+                    if tgt is None or tgt == name:
+                        continue
+                    if any(isinstance(y, ast.Name) and y.id == name and isinstance(y.ctx, ast.Load)
+                           for y in ast.walk(val)):
+                        emitted = x
+                        break
+                if emitted is not None:
+                    out.append((f, loop, name, emitted.lineno))
+    return out
 
 
 def header_problems(v, s, want_type):
